@@ -75,6 +75,10 @@ def label_map(version):
         out[name] = abbr
     for name in dup:
         del out[name]
+    # a prompt may also name the metric by its abbreviation ("PR: N/L/H"): accepted as an exact label
+    # only (never searched for inside running text: "A", "C", "S" occur everywhere)
+    for abbr in mod.METRICS_ABBREVIATIONS:
+        out.setdefault(abbr, abbr)
     return out
 
 
